@@ -416,6 +416,21 @@ func (s *E2EScenario) Check(k *sim.Kernel) []sim.Violation {
 			fmt.Sscan(e.Data, &ci)
 			done[ci] = true
 		case "c.sendfail":
+			var f struct{ Client, Call int }
+			json.Unmarshal([]byte(e.Data), &f)
+			if f.Client < len(s.Clients) {
+				// the service hangs up after a handler failure: a later Send may fail
+				cm := s.model(s.Clients[f.Client])
+				ended := false
+				for i, c := range s.Clients[f.Client].Calls {
+					if cm.ServerCloses && c.Cid == cm.EndsAfterCid && i < f.Call {
+						ended = true
+					}
+				}
+				if ended {
+					break
+				}
+			}
 			out = append(out, vio("client", "send-failed", "Send failed: %s", e.Data))
 		case "c.retry":
 			var r struct {
@@ -454,7 +469,8 @@ func (s *E2EScenario) Check(k *sim.Kernel) []sim.Violation {
 		cm := s.model(cl)
 		// ---- the wire, both directions
 		nReq, v := checkWire(key+" client->service", clientEnd[ci].Tap)
-		if v != nil {
+		if v != nil && !(cm.ServerCloses && strings.HasPrefix(v.Key, "message-without-nul")) {
+			// (after a handler failure the service hangs up: the client may be cut in the middle of its next request)
 			out = append(out, *v)
 		}
 		nRep, v := checkWire(key+" service->client", conn.Server.Tap)
@@ -475,7 +491,7 @@ func (s *E2EScenario) Check(k *sim.Kernel) []sim.Violation {
 					}
 				}
 			}
-			if nReq != wantReq {
+			if nReq != wantReq && !(cm.ServerCloses && nReq > wantReq) {
 				out = append(out, vio("framing", "message-count client->service", "%s: the client made %d calls, the wire carries %d call messages", key, wantReq, nReq))
 			}
 		}
@@ -733,6 +749,14 @@ func genE2E(g *Gen, prop string, params func() string, script func(more bool) Sc
 		c0 := &s.Clients[0]
 		c0.Transport, c0.StartUs = "stream", 0
 		c0.Calls[g.IntN(len(c0.Calls))].PauseUs = 7200e6
+		for _, c := range c0.Calls {
+			// (the anchor's connection must not be ended by a failing handler)
+			sc := s.Scripts[c.Cid]
+			for len(sc.Actions) > 0 && sc.Actions[len(sc.Actions)-1].Op == "fail" {
+				sc.Actions = sc.Actions[:len(sc.Actions)-1]
+			}
+			s.Scripts[c.Cid] = sc
+		}
 		for i := 1; i < len(s.Clients); i++ {
 			s.Clients[i].StartUs = g.IntN(3600e6)
 		}
@@ -750,6 +774,9 @@ func genE2E(g *Gen, prop string, params func() string, script func(more bool) Sc
 				}
 				for _, a := range s.Scripts[c.Cid].Actions {
 					total += len(a.Params) + 100
+					if a.Op == "fail" {
+						small = false // the service hangs up there: nothing may be in flight behind it
+					}
 				}
 			}
 			// (with more in flight than the pipes hold, a client that writes requests
@@ -1002,6 +1029,9 @@ func genC02(seed uint64, tier string) Scenario {
 			sc.Actions = append(sc.Actions, Action{Op: "error", Name: "a.b." + g.Pick("E", "Failed"), Params: params()})
 		} else {
 			sc.Actions = append(sc.Actions, Action{Op: "reply", Params: params()})
+		}
+		for i := range sc.Actions {
+			sc.Actions[i].ByValue = g.Pct(35)
 		}
 		return sc
 	}
